@@ -57,7 +57,6 @@ func (mach *marshalMachineArrayWildcard) Step(driver *Marshaller, slab *marshalS
 		return true, fmt.Errorf("invalid state: value already consumed")
 	}
 	rv := mach.target_rv.Index(mach.index)
-	driver.Recurse(tok, rv, mach.value_rt, mach.valueMach)
 	mach.index++
-	return false, nil
+	return false, driver.Recurse(tok, rv, mach.value_rt, mach.valueMach)
 }
